@@ -76,6 +76,11 @@ type Delivery struct {
 	Tx       *gobinlog.Transaction
 }
 
+// stalls counts the executions of this process that the watchdog ended.
+var stalls atomic.Int64
+
+func init() { chk.StallCount = stalls.Load }
+
 // sinkTimeout is a refusal that calls itself temporary.
 type sinkTimeout struct{}
 
@@ -331,6 +336,7 @@ func (r *Runner) Attempt() bool {
 		case <-done:
 		case <-time.After(time.Duration(limit) * time.Second):
 			out.Hung = true
+			stalls.Add(1)
 			return false
 		}
 		out.StreamErr = append(out.StreamErr, serr)
